@@ -129,7 +129,8 @@ def _step_check(st):
         extra = [[list(p) for p in pairs], count]
     else:
         raise AssertionError(api)
-    return dict(model=(v if api != "taut" else None), full=[v, extra])
+    # tautomer workflow: True / False / None (enumeration failed) -> [] for None, [b] otherwise (model: check_pair ... false)
+    return dict(model=(v if api != "taut" else ([] if v is None else [bool(v)])), full=[v, extra])
 
 
 def _canon_full(c):
